@@ -316,8 +316,8 @@ func (n *node[T]) checkAmbiguous(pattern string, hasNonString bool) (*node[T], b
 		}
 
 		segs, err := n.root.interceptors.Split(pattern)
-		if err != nil {
-			return nil, false, err
+		if err != nil { // pattern 是被之前的节点从某个参数的中间截断的，完整的内容由 [Tree.Add] 负责验证，此处不可能存在歧义。
+			continue
 		}
 		s0 := segs[0]
 
